@@ -237,7 +237,11 @@ pub fn format_comments(comments: &str) -> String {
     if comments.is_empty() {
         String::new()
     } else {
-        String::from("//") + &comments.replace('\n', "\n //") + "\n"
+        // every ECMAScript line terminator ends a `//` comment
+        let lines = comments
+            .replace("\r\n", "\n")
+            .replace(['\r', '\u{2028}', '\u{2029}'], "\n");
+        String::from("//") + &lines.replace('\n', "\n //") + "\n"
     }
 }
 
